@@ -151,15 +151,16 @@ def mutation_adequacy(prop, fn):
                 continue
             out['applied'] += 1
             sub = Report(prop, 'thorough', 'other', 'mutant replay')
-            try:
-                facts = extract('dev', repo=dst)
-                fn(Ctx(facts), sub, 'quick')
-            except Undecided as e:
-                sub.undecided(str(e))
-            except FactError as e:
-                sub.finding('BUILD', str(e)[:200])
-            except Exception as e:
-                sub.finding('INTERNAL', repr(e))
+            for fl_ in ('dev', 'rel'):
+                try:
+                    facts = extract(fl_, repo=dst)
+                    fn(Ctx(facts), sub, 'quick')
+                except Undecided as e:
+                    sub.undecided(str(e))
+                except FactError as e:
+                    sub.finding('BUILD', str(e)[:200])
+                except Exception as e:
+                    sub.finding('INTERNAL', repr(e))
             from .common import load_known
             known, _ = load_known()
             new = [k for k, _d in sub.findings if (prop, k) not in known]
